@@ -7,6 +7,7 @@ mod endpoint;
 mod queue;
 mod session;
 mod sim;
+mod spectator;
 mod synctest;
 mod timesync;
 mod util;
@@ -25,6 +26,7 @@ fn main() {
         "sim" => sim::run(),
         "queue" => queue::run(),
         "session" => session::run(),
+        "spectator" => spectator::run(),
         "synctest" => synctest::run(),
         "timesync" => timesync::run(),
         "profile" => println!("{}", if cfg!(debug_assertions) { "debug" } else { "release" }),
